@@ -27,6 +27,8 @@ from .util import drop_candidates
 HANG_SECONDS = 60
 # Stream methods that change the object they are called on and return it
 IN_PLACE = ("skip", "limit", "append", "map", "filter")
+# stages with a fixed operand of p["n"] items that is not a source
+FIXED_OPERAND_STAGES = ("add_list", "radd_list", "mul_gen")
 
 
 class _Hang(BaseException):
@@ -283,6 +285,22 @@ class C02(Property):
         ends[e] = [STAGES[name]["prod"], ends[e][1] and STAGES[name]["exact"]]
     if late:
       wl["late"] = late
+    if wl.get("deep"):
+      # soundness rule 2 (fixed, non-source operands never run out before the
+      # demand does) must hold for demands of hundreds of items as well
+      def bump(node):
+        if isinstance(node, dict):
+          if node.get("st") in FIXED_OPERAND_STAGES and \
+             isinstance(node.get("p"), dict) and "n" in node["p"]:
+            node["p"]["n"] += 60000
+          for v in node.values():
+            bump(v)
+        elif isinstance(node, list):
+          for v in node:
+            bump(v)
+      bump(wl["base"])
+      bump(wl["tails"])
+      bump(wl.get("late") or [])
     return wl
 
   def shrink_candidates(self, wl):
